@@ -93,7 +93,7 @@ pub enum Op {
     /// an insert whose iterator *reports* the expected length but yields `yield_delta` more or
     /// fewer items: the effect on the contents is unspecified (C11 allows losing elements), but
     /// the shape invariant must hold afterwards; the model is re-read from the array
-    InsertLying { row: bool, push: bool, at: Ix, yield_delta: i8 },
+    InsertLying { row: bool, push: bool, at: Ix, yield_delta: i8, #[serde(default)] huge: bool },
     RemoveRow { at: Ix, script: Vec<DStep> },
     PopRow { script: Vec<DStep> },
     RemoveCol { at: Ix, script: Vec<DStep> },
@@ -710,17 +710,19 @@ impl<'c, E: Elem + Clone + Default + Ord> Eng<'c, E> {
                 }
                 self.note_result(valid, res.is_err());
             }
-            Op::InsertLying { row, push, at, yield_delta } => {
+            Op::InsertLying { row, push, at, yield_delta, huge } => {
                 let (dim, other) = if *row { (r, c) } else { (c, r) };
                 let i = at.resolve(dim).min(dim);
                 let expected = if empty { 2 } else { other };
                 let n = (expected as i64 + (*yield_delta).clamp(-2, 2) as i64).max(0) as usize;
-                if self.valid_only {
+                // (a zero-sized element type with an enormous claimed length would loop ~2^64 times)
+                if self.valid_only || (*huge && E::ZST) {
                     self.ctx.class("skipped-invalid");
                     return Ok(());
                 }
                 let (v, _) = mint_line::<E>(n, keyctr);
-                let it = super::fault::FIter::new(v, super::fault::Report::Expected, expected);
+                // `huge`: the iterator claims usize::MAX items, so reserving room for it must fail
+                let it = super::fault::FIter::new(v, if *huge { super::fault::Report::Max } else { super::fault::Report::Expected }, expected);
                 let t = &mut self.t;
                 let (row, push) = (*row, *push);
                 let res = catch(move || match (row, push) {
@@ -737,7 +739,7 @@ impl<'c, E: Elem + Clone + Default + Ord> Eng<'c, E> {
                 if c2.checked_mul(r2) == Some(t.data().len()) && (c2 == 0) == (r2 == 0) {
                     self.m = Model::from_flat(c2, r2, &ids_of(t));
                 } else if shape_mode {
-                    fail!("lying-iterator/invalid-shape", "after an insert whose iterator yields {} items but reports {}: size ({},{}) with {} cells", n, expected, c2, r2, t.data().len());
+                    fail!("lying-iterator/invalid-shape", "after an insert whose iterator yields {} items but reports {}: size ({},{}) with {} cells", n, if *huge { "usize::MAX".to_string() } else { expected.to_string() }, c2, r2, t.data().len());
                 } else {
                     self.diverged = true;
                 }
@@ -1323,7 +1325,7 @@ pub fn op() -> impl Strategy<Value = Op> {
         5 => (len_spec(), src()).prop_map(|(len, src)| Op::PushRow { len, src }),
         8 => (ix_bound(), len_spec(), src()).prop_map(|(at, len, src)| Op::InsertCol { at, len, src }),
         5 => (len_spec(), src()).prop_map(|(len, src)| Op::PushCol { len, src }),
-        2 => (any::<bool>(), any::<bool>(), ix_bound(), prop_oneof![Just(-1i8), Just(1i8), Just(2i8), Just(0i8)]).prop_map(|(row, push, at, yield_delta)| Op::InsertLying { row, push, at, yield_delta }),
+        2 => (any::<bool>(), any::<bool>(), ix_bound(), prop_oneof![Just(-1i8), Just(1i8), Just(2i8), Just(0i8)], prop::bool::weighted(0.3)).prop_map(|(row, push, at, yield_delta, huge)| Op::InsertLying { row, push, at, yield_delta, huge }),
         6 => (ix_elem(), drain_script()).prop_map(|(at, script)| Op::RemoveRow { at, script }),
         3 => drain_script().prop_map(|script| Op::PopRow { script }),
         6 => (ix_elem(), drain_script()).prop_map(|(at, script)| Op::RemoveCol { at, script }),
